@@ -189,6 +189,17 @@ var c04Rules = []c04Rule{
 		delete(d["servers"].([]any)[1].(map[string]any)["variables"].(map[string]any), "base")
 		return true
 	}},
+	// names are compared exactly: a template variable that differs from the declared one by blanks or by case is undeclared
+	{"server-url-variable-differs-from-the-declared-one-by-blanks", "root", "", func(d, _ map[string]any, _ []string) bool {
+		sv := d["servers"].([]any)[1].(map[string]any)
+		sv["url"] = strings.Replace(sv["url"].(string), "{base}", "{ base }", 1)
+		return true
+	}},
+	{"server-url-variable-differs-from-the-declared-one-by-case", "root", "", func(d, _ map[string]any, _ []string) bool {
+		sv := d["servers"].([]any)[1].(map[string]any)
+		sv["url"] = strings.Replace(sv["url"].(string), "{base}", "{BASE}", 1)
+		return true
+	}},
 	{"server-variable-without-default", "root", "", func(d, _ map[string]any, _ []string) bool {
 		delete(d["servers"].([]any)[1].(map[string]any)["variables"].(map[string]any)["base"].(map[string]any), "default")
 		return true
